@@ -21,6 +21,9 @@ use uuid::Uuid;
 // @h c14_headers_r | the same ::parse on reference encodings | every field | fields recovered, exact consumption | <= 60 bytes each
 // @h c14_check_info | CheckInfo::{serialize,parse}; CheckKind::block_size | kind, 32 hash bytes | kind byte then 32 bytes; block sizes 5 / 37; unknown kind => Err | -
 
+// @h c14_content_header_r | ContentPackHeader::parse | 60 byte reference encoding, all fields symbolic | fields recovered, exact consumption | 60 bytes
+// @h c14_directory_header_r | DirectoryPackHeader::parse | 60 byte reference encoding | fields recovered, exact consumption | 60 bytes
+// @h c14_manifest_container_header_r | ManifestPackHeader::parse; ContainerPackHeader::parse; PackLocator::parse | reference encodings | fields recovered, exact consumption | 60 / 60 / 32 bytes
 fn any_kind() -> (PackKind, u8) {
     let k: u8 = kani::any();
     kani::assume(k < 4);
